@@ -93,7 +93,7 @@ func genStack(c *genCtx) error {
 	}
 	nh := 600
 	if c.thorough() {
-		nh = 12000
+		nh = 40000
 	}
 	// a history must stay in one shard (its events are consecutive lines): one writer per shard, histories dealt round-robin
 	for hI := 0; hI < nh; hI++ {
